@@ -1,7 +1,7 @@
 SPECIFICATION Spec
 CONSTANTS
-    TaskIds = {t1, t2}
-    Shapes <- MCShapesQuick
+    TaskIds = {t1, t2, t3}
+    Shapes <- MCShapesThree
     Batches <- MCBatchesQuick
     DefaultRP = "rp1"
     MaxWrites = 2
